@@ -533,6 +533,16 @@ func (c *client) receive(r io.Reader) (err error) {
 	}
 
 	// Here we know for sure that we got a response for rpc we asked.
+	// A server that says in a result of a multi response that it is
+	// stopping is gone for everybody else on this connection too, and
+	// the callers are going to forget about this client: fail it (see
+	// receiveRPCs) once the results have been delivered.
+	defer func() {
+		if err == nil {
+			err = serverErrorInMulti(response)
+		}
+	}()
+
 	// It's our responsibility to deliver the response or error to the
 	// caller as we unregistered the rpc.
 	defer func() { returnResult(rpc, response, err) }()
@@ -600,6 +610,30 @@ func (c *client) receive(r io.Reader) (err error) {
 		}
 	}
 	return
+}
+
+// serverErrorInMulti returns the first exception of a multi response, be it
+// for a region or for a single action, that means that the server is gone.
+func serverErrorInMulti(response proto.Message) error {
+	mr, ok := response.(*pb.MultiResponse)
+	if !ok {
+		return nil
+	}
+	for _, rar := range mr.GetRegionActionResult() {
+		if e := rar.GetException(); e != nil {
+			if err, ok := exceptionToError(e.GetName(), string(e.GetValue())).(ServerError); ok {
+				return err
+			}
+		}
+		for _, roe := range rar.GetResultOrException() {
+			if e := roe.GetException(); e != nil {
+				if err, ok := exceptionToError(e.GetName(), string(e.GetValue())).(ServerError); ok {
+					return err
+				}
+			}
+		}
+	}
+	return nil
 }
 
 func exceptionToError(class, stack string) error {
